@@ -236,6 +236,32 @@ def presence_only_trees(build: Build, sub: MsgInfo) -> List[dict]:
     return out
 
 
+def grow_in_place(build: Build, m, mi: MsgInfo, depth: int = 0) -> bool:
+    """lets a message grow WITHOUT assigning any attribute of the message itself: list.append, dict item assignment,
+    and the same inside present plain sub-messages.  True if something grew."""
+    import betterproto
+
+    names = attr_names(type(m))
+    grew = False
+    for fi in mi.fields:
+        if fi.number not in names:
+            continue
+        try:
+            v = getattr(m, names[fi.number])
+        except AttributeError:
+            continue
+        if fi.label == "repeated" and v:
+            v.append(v[0])
+            grew = True
+        elif fi.label == "map" and v and fi.map_key.kind == "string":
+            k0 = next(iter(v))
+            v[k0 + "+grown"] = v[k0]
+            grew = True
+        elif fi.label == "singular" and fi.kind == "message" and fi.wkt is None and depth < 2 and betterproto.serialized_on_wire(v):
+            grew = grow_in_place(build, v, build.msgs[fi.type_name], depth + 1) or grew
+    return grew
+
+
 def _only_empties(v) -> bool:
     if not isinstance(v, dict):
         return False
